@@ -28,11 +28,27 @@ for nt in (1, 2, 4, 8):
 
 # proved for every rank 1..1024 with injected loop contracts: memory safety, frame, and for
 # compute_chunk_to_array the value of the ghost dimension
-HL = dict(loops=True, nloops=1, cex_unwind=5, **HC)
+HL = dict(loops=True, nloops=1, cex_unwind=5, timeout=120, flags=["--no-signed-overflow-check"], **HC)
 ob("chunk_to_array", "C04", entry="h_chunk_to_array", enforce="compute_chunk_to_array", loopcls="P", **HL)
 ob("chunk_num_safe", "C04", entry="h_chunk_num", enforce="calculate_chunk_num", loopcls="A", **HL)
 ob("seek_in_chunk_safe", "C04", entry="h_seek_in_chunk", enforce="calculate_seek_in_chunk", loopcls="A", **HL)
 ob("array_to_seek_safe", "C04", entry="h_array_to_seek", enforce="compute_array_to_seek", loopcls="A", **HL)
+ob("seek_pos_chunk", "C04", entry="h_seek_pos_chunk", enforce="update_seek_pos_chunk", loopcls="P", **HL)
+ob("chunk_indices_seek", "C04", entry="h_chunk_indices_seek", enforce="update_chunk_indices_seek", loopcls="P", **HL)
+
+# ----------------------------------------------------------------------------- mcache.c
+# bounded protocol runs on heaps built by the real mcache_open/mcache_get; 128 = HASHSIZE loops
+MC = dict(unit="mcache_u.c", file="hdf/src/mcache.c", mode="bounded", objbits=10, unwind=5, cex_unwind=5,
+          flags=["--unwindset", "mcache_open.1:129,mcache_open.5:129,mcache_close.3:129"],
+          trusted=["st_pgin/st_pgout: page callbacks modelled as a byte store per page number"])
+ob("mcache_protocol", "C04", entry="h_mcache_protocol", timeout=900,
+   bound="<=3 pages, cache size 1..2, 3 get/put steps (pages may stay pinned), page size 2 bytes, allocation succeeds", **MC)
+ob("mcache_close", "C04", entry="h_mcache_close", timeout=900,
+   bound="<=3 pages, cache size 1..2, 2 get/put steps, allocation succeeds", **MC)
+ob("mcache_evict_fail", "C04", entry="h_mcache_evict_fail", timeout=900,
+   bound="2..3 pages, cache size 1, pgout fails once during eviction", **MC)
+ob("mcache_open_oom", "C04", entry="h_mcache_open_oom", timeout=900,
+   bound="<=3 pages, any allocation inside mcache_open may fail", **MC)
 
 prop("C04",
      residual="equality of reads across layouts (a relation between two complete stacks); HMCPread/HMCPwrite loops, "
